@@ -128,6 +128,18 @@ CHECKS = {
         "note": "Not decided: numerical equality of interpolation, resample, dtype effects. Trusted: numpy copy semantics (np.array copies, "
                 "arithmetic allocates), copy.deepcopy; enum members and callables may be shared.",
     },
+    "C16": {
+        "technique": "static analysis: scalar/array twin comparison (decision lists), syntactic differentiation + polynomial normal form, sign-domain abstract interpretation",
+        "text": "Scalar-arm decision lists equal the array-arm masked assignments for index (Antarctic, Uniform) and depth_with_index "
+                "(R16a: sufficient for scalar = array agreement at every depth incl. on the bounds); closed-interval contains and strict "
+                "complements with the declared outside indices (R16b); d/dz of the in-range profile equals gradient[2] (R16c) and "
+                "index(depth_with_index(n)) normalises to n with exp(log x) = x, clamps return the edges (R16d) -- both in exact arithmetic; "
+                "the 3+3+2 attenuation shape arms use one formula and one 1 GHz split, matrix = rows depth x columns frequency (R16e); Uniform "
+                "shares Antarctic's attenuation (R16f); attenuation lengths positive by the sign domain / clamp pattern (R16g); layered ice "
+                "sorted, contiguous, half-open lookup with the bottom edge (R16h).",
+        "note": "Not decided: monotonicity as numbers, distinguishability from the asymptote, finiteness, ArasimIce positivity (extrapolating "
+                "interp1d). Trusted: PolyNF identities, sign-domain table.",
+    },
 }
 
 _TODO = "check not built yet in this session (see DESIGN.md section 3 for the planned rules)"
